@@ -253,6 +253,25 @@ class Builder:
             if kind == "vt":
                 return Named(lambda m: get(expr, m, default=None, trace=self.tracer), lab)
             return Named(lambda m: get(expr, m), lab)
+        if k == "below":
+            # a has-predicate reused inside its own filter: "some node below this one satisfies
+            # `tab`", written as H = has(path.<first>[P]) with P(m) = tab(m) or H(m)
+            first, tabp = p[1], p[2]
+            tab = self.pred(tabp, depth + 1)
+            holder = {}
+
+            def below_p(m):
+                r = tab(m)
+                if r:
+                    return r
+                if isinstance(m.data, (dict, list)):
+                    return holder["H"](m)
+                return r
+
+            inner = self.logged(Named(below_p, "below-P:" + repr(tab)), depth + 1)
+            expr = self.step(self.root, first, depth + 1)[inner]
+            holder["H"] = has(expr)
+            return holder["H"]
         raise ValueError(f"bad pred {p!r}")
 
 
